@@ -74,14 +74,27 @@ Proof.
   destruct (file_fetch d s) as [c1|]; [|reflexivity]. destruct (d_dig d =? b_hash c1); reflexivity.
 Qed.
 
+Lemma file_index_graph d s g :
+  file_index d (with_graph s g) =
+  (with_graph (fst (file_index d s)) (f_graph (fst (file_index d (with_graph s g)))), snd (file_index d s)).
+Proof.
+  unfold file_index. destruct (is_manifest (d_mt d)); [|reflexivity].
+  rewrite file_fetch_graph. destruct (file_fetch d s) as [c1|]; [|reflexivity].
+  destruct (d_dig d =? b_hash c1); reflexivity.
+Qed.
+
 Lemma file_index_after_graph fx ov d s g :
   fcore (fst (file_index_after fx ov d (with_graph s g))) = fcore (fst (file_index_after fx ov d s)).
 Proof.
-  unfold file_index_after. destruct (is_manifest (d_mt d)); [|now rewrite !fcore_index].
-  rewrite file_fetch_graph. destruct (file_fetch d s) as [c1|]; [|reflexivity].
+  unfold file_index_after. rewrite file_index_graph.
+  pose proof (fcore_index d s) as Hc.
+  set (g2 := f_graph (fst (file_index d (with_graph s g)))). clearbody g2.
+  destruct (file_index d s) as [s2 r]. cbn [fst snd] in *.
+  destruct r as [o|e]; [|reflexivity]. destruct o; try reflexivity.
+  destruct (is_manifest (d_mt d)); [|reflexivity].
+  rewrite file_fetch_graph. destruct (file_fetch d s2) as [c1|]; [|reflexivity].
   destruct (d_dig d =? b_hash c1); [|reflexivity].
-  rewrite file_restore_graph. destruct (file_restore fx ov (b_tl c1) s) as [s2 [e|]]; cbn [fst snd]; [reflexivity|].
-  now rewrite !fcore_index.
+  rewrite file_restore_graph. destruct (file_restore fx ov (b_tl c1) s2) as [s3 [e|]]; reflexivity.
 Qed.
 
 Lemma file_push_store_graph fx ig ov s g d c :
@@ -121,12 +134,21 @@ Proof.
 Qed.
 
 (* content without titled successors: the read-back after a store touches the graph only *)
+Lemma file_unt_core' s1 s2 : fcore s1 = fcore s2 -> file_unt s1 -> file_unt s2.
+Proof.
+  intro H. rewrite (fcore_eq_graph _ _ H). intros [A C]. constructor; [exact A | exact C].
+Qed.
+
 Lemma fcore_index_after fx ov d s1 : file_unt s1 -> fcore (fst (file_index_after fx ov d s1)) = fcore s1.
 Proof.
-  intro Hu. unfold file_index_after. destruct (is_manifest (d_mt d)); [|apply fcore_index].
-  destruct (file_fetch d s1) as [c1|] eqn:Ef; [|reflexivity].
-  destruct (d_dig d =? b_hash c1); [|reflexivity].
-  rewrite (file_fetch_unt _ _ _ Hu Ef). cbn [file_restore]. apply fcore_index.
+  intro Hu. unfold file_index_after. pose proof (fcore_index d s1) as Hc.
+  destruct (file_index d s1) as [s2 r]. cbn [fst] in Hc.
+  destruct r as [o|e]; [|exact Hc]. destruct o; try exact Hc.
+  destruct (is_manifest (d_mt d)); [|exact Hc].
+  destruct (file_fetch d s2) as [c1|] eqn:Ef; [|exact Hc].
+  destruct (d_dig d =? b_hash c1); [|exact Hc].
+  assert (Hu2 : file_unt s2) by (eapply file_unt_core'; [symmetry; exact Hc | exact Hu]).
+  rewrite (file_fetch_unt _ _ _ Hu2 Ef). cbn [file_restore fst]. exact Hc.
 Qed.
 
 Lemma file_unt_core s1 s2 : fcore s1 = fcore s2 -> file_unt s1 -> file_unt s2.
